@@ -171,7 +171,7 @@ def rule_next(ctx, F):
                     if n.get("k") == "assign" and strip(n["l"]).get("k") == "ref" and strip(n["l"])["id"] == i and ("utf8_byte" in inline_text(fn, n["r"]) or "utf16_column" in inline_text(fn, n["r"])):
                         use.append(pt2)
         ctx.floor("uses of the cached line position", len(use), 2)
-        text_gate(ctx, "T4", fn, use, [("the cached position is used only if it is not after this name on the line", [((".utf8_position", ".column", "<="), True)])], accept_desc="taking the cached byte/column")
+        text_gate(ctx, "T4", fn, use, [("the cached position is used only if it is not after this name on the line", [((".utf8_position.column <= ", ".start.column)"), True)])], accept_desc="taking the cached byte/column")
         flt = [f for f in F.fn_list if f.name.startswith(fn.name + "::{closure") and any("utf8_position" in inline_text(f, e) for _, e in f.points())]
         okf = False
         for f in flt:
@@ -218,8 +218,8 @@ def rule_next(ctx, F):
     if loc:
         text_gate(ctx, "T7", fn, loc, [
             ("a name is local only if the query asks for non-local names", [(("name_must_be_non_local",), True)]),
-            ("…the scope starts at or before the name", [((".range", ".start", "<="), True)]),
-            ("…and ends at or after it", [((".range", ".end", ">="), True)]),
+            ("…the scope starts at or before the name", [((".range.start <= ", ".start)"), True)]),
+            ("…and ends at or after it", [((".range.end >= ", ".end)"), True)]),
         ], accept_desc="declaring the name local")
     # T8 dedup key
     bs = calls_named(fn, "binary_search_by_key")
@@ -231,8 +231,12 @@ def rule_next(ctx, F):
     okc = any(".end" in " ".join(inline_text(f, e) for _, e in f.points()) and ".start" in " ".join(inline_text(f, e) for _, e in f.points()) for f in kc)
     verdict("T8", "next:queue-searched-by-name-range", bool(bs) and okk and okc, "the tag queue is searched by (name_range.end, name_range.start) on both sides",
             "the tag queue is no longer searched with the key (name_range.end, name_range.start) on both the probe and the stored tags")
-    ins = calls_named(fn, "Vec", "::insert")
-    text_gate(ctx, "T8", fn, [p for p, c, d in ins], [("a tag is inserted only when no tag exists for that name node", [(("binary_search_by_key", "discriminant"), None)])], accept_desc="inserting a tag") if False else None
+    # an existing tag for the same name node is replaced only by a match of an earlier pattern
+    repl = [pt2 for pt2, e2 in fn.points() for n in own_walk(e2) if n.get("k") == "assign" and strip(n["l"]).get("k") == "un" and "Tag" in (strip(n["r"]).get("t") or "") + rsrules.inline_text(fn, n["r"])
+            and strip(n["r"]).get("k") == "ref"]
+    repl = [p for p in repl if any(".pattern_index" in rsrules.cond_text(fn, fn.cond(b.id), True)[0] and " > " in rsrules.cond_text(fn, fn.cond(b.id), True)[0] for b in fn.blocks.values() if fn.cond(b.id) is not None)]
+    if repl:
+        text_gate(ctx, "T8", fn, repl[:1] if False else repl, [("an existing tag is replaced only by a match of an earlier pattern", [((" > (*", ").pattern_index)"), True)])], accept_desc="replacing a queued tag")
 
 
 def rule_line_range(ctx, F):
